@@ -128,6 +128,22 @@ Theorem C13_move_of_root_rejected_first : forall al doc p,
 Proof. exact move_of_root_rejected_first. Qed.
 Print Assumptions C13_move_of_root_rejected_first.
 
+(* ---- index magnitude: an array reference token denotes its decimal value whatever its size
+   (saturating conversion, no wrap-around): not below the length = no element; above the length
+   = no place to add / move / copy to *)
+Theorem C13_index_beyond_end_is_no_element : forall l tok i,
+  small (JArr l) = true -> array_index tok = Some i -> zlen l <= i ->
+  get_single_path (JArr l) tok = SPErr ENOENT.
+Proof. exact index_beyond_end_is_no_element. Qed.
+Print Assumptions C13_index_beyond_end_is_no_element.
+
+Theorem C13_index_beyond_end_is_no_place : forall al l tok i v,
+  small (JArr l) = true -> array_index tok = Some i -> zlen l < i ->
+  set_single_path (insert_idx_cb true) al (JArr l) tok v = SErr EINVAL /\
+  set_single_path move_cb al (JArr l) tok v = SErr EINVAL.
+Proof. exact index_beyond_end_is_no_place. Qed.
+Print Assumptions C13_index_beyond_end_is_no_place.
+
 (* json_patch_unescape_token = the RFC's unescaping, all byte strings *)
 Theorem C13_unescape_token_spec : forall s, unescape_token s = unescape s.
 Proof. exact unescape_token_spec. Qed.
